@@ -20,6 +20,7 @@ import (
 	"strconv"
 	"strings"
 	"sync"
+	"sync/atomic"
 	"time"
 
 	"github.com/pentops/j5/gen/j5/schema/v1/schema_j5pb"
@@ -169,7 +170,7 @@ func (r *raceImpl) Exec(h *vh.H, op string) string {
 		return "skipped-after-deadlock"
 	}
 	bin := r.childBinary(h)
-	ctx, cancel := context.WithTimeout(context.Background(), 900*time.Second)
+	ctx, cancel := context.WithTimeout(context.Background(), 3*time.Hour)
 	defer cancel()
 	cmd := exec.CommandContext(ctx, bin, append([]string{"child"}, p[1:]...)...)
 	cmd.Env = append(os.Environ(), "GORACE=halt_on_error=0 atexit_sleep_ms=0", "GOMAXPROCS=16")
@@ -219,7 +220,7 @@ func (r *raceImpl) Exec(h *vh.H, op string) string {
 	}
 	if ctx.Err() != nil {
 		r.deadlocked = true
-		fail("deadlock", "child did not finish within 900 s")
+		fail("deadlock", "child did not finish within 3 h")
 	} else if err != nil && fails == 0 {
 		fail("child-crash", err.Error()+"\n"+tail(se, 1500))
 	}
@@ -533,9 +534,13 @@ func unlinkedMark(root j5schema.RootSchema) string {
 	return bad
 }
 
-// a round normally takes well under a second (a few seconds under -race with 64 goroutines on a
-// loaded machine)
-const watchdog = 60 * time.Second
+// Deadlock watchdog: a round normally takes well under a second, but under -race with 64
+// goroutines on a machine that other jobs load to 15x its cores it has been seen to take minutes.
+// So the verdict is about progress, not time: DEADLOCK when no call at all has completed for
+// `watchdog` while goroutines are still running.
+const watchdog = 120 * time.Second
+
+var progress atomic.Int64
 
 func childMain(args []string) {
 	if len(args) != 5 {
@@ -597,6 +602,7 @@ func childMain(args []string) {
 				<-start
 				for i, c := range plans[g] {
 					out[i] = doCall(cc, sc, ts, c)
+					progress.Add(1)
 				}
 				results[g] = out
 			}(g)
@@ -604,12 +610,21 @@ func childMain(args []string) {
 		done := make(chan struct{})
 		go func() { wg.Wait(); close(done) }()
 		close(start)
-		select {
-		case <-done:
-		case <-time.After(watchdog):
-			fmt.Printf("DEADLOCK round %d set %s: goroutines still running after %s\n", round, set, watchdog)
-			_ = pprof.Lookup("goroutine").WriteTo(os.Stdout, 1)
-			os.Exit(3)
+		last, lastAt := progress.Load(), time.Now()
+	wait:
+		for {
+			select {
+			case <-done:
+				break wait
+			case <-time.After(2 * time.Second):
+				if now := progress.Load(); now != last {
+					last, lastAt = now, time.Now()
+				} else if time.Since(lastAt) > watchdog {
+					fmt.Printf("DEADLOCK round %d set %s: no call completed for %s, goroutines still running\n", round, set, watchdog)
+					_ = pprof.Lookup("goroutine").WriteTo(os.Stdout, 1)
+					os.Exit(3)
+				}
+			}
 		}
 		// what each call returns when run alone: a fresh codec / cache per call
 		expect := map[call]string{}
